@@ -247,8 +247,9 @@ func (e *Exec) loopOrdinal(h *ssa.BasicBlock) int {
 // ---------- region execution ----------
 
 type exitEdge struct {
-	to *ssa.BasicBlock
-	st *State
+	to   *ssa.BasicBlock
+	st   *State
+	from *ssa.BasicBlock
 }
 
 // execRegion runs the blocks in `region` starting at `entry` with state st.
@@ -278,7 +279,7 @@ func (e *Exec) execRegion(region map[*ssa.BasicBlock]bool, entry *ssa.BasicBlock
 			return
 		}
 		if !region[to] {
-			exits = append(exits, exitEdge{to, s})
+			exits = append(exits, exitEdge{to, s, from})
 			return
 		}
 		if isBackEdge(from, to) {
@@ -585,6 +586,15 @@ func (e *Exec) execLoop(h *ssa.BasicBlock, loop map[*ssa.BasicBlock]bool, pre *S
 			e.addObl(bs, fmt.Sprintf("%s/loop#%d/decreases", e.funcKey, ord), "decreases", g, h.Instrs[0].Pos(), dec.Text)
 		}
 	}
+	if e.fc != nil && e.fc.LoopNoBreak[ord] {
+		// the loop may be left only from its header: a break (or goto) out of the body would skip
+		// the remaining elements
+		for _, ex := range exits {
+			if ex.from != nil && ex.from != h {
+				e.addObl(ex.st, fmt.Sprintf("%s/loop#%d/nobreak", e.funcKey, ord), "loop", Not(ex.st.pc), h.Instrs[0].Pos(), "the loop is left only when its range is exhausted")
+			}
+		}
+	}
 	return exits
 }
 
@@ -637,9 +647,9 @@ func (e *Exec) execBlock(b *ssa.BasicBlock, s *State) []exitEdge {
 			t.assume(c)
 			f := s
 			f.assume(Not(c))
-			return []exitEdge{{b.Succs[0], t}, {b.Succs[1], f}}
+			return []exitEdge{{b.Succs[0], t, b}, {b.Succs[1], f, b}}
 		case *ssa.Jump:
-			return []exitEdge{{b.Succs[0], s}}
+			return []exitEdge{{b.Succs[0], s, b}}
 		case *ssa.Return:
 			if specs := e.siteAsserts[ins]; len(specs) > 0 {
 				e.runSiteSpecs(s, ins, specs, true)
